@@ -256,6 +256,12 @@ func (x *klCtx) run() {
 									missed = true
 								}
 							}
+							// plain lookup found nil: every value this rule lets into the table is a fresh entry, so nil means absent
+							if y.Kind == EvMapLookup && y.Args[0].Key() == e.Args[0].Key() && y.Res.Kind != KTuple {
+								if hasFact(t.factsBefore(i), func(f Fact) bool { return f.X.Key() == y.Res.Key() && f.Op == token.EQL && f.Y.isNilConst() }) {
+									missed = true
+								}
+							}
 						}
 						if !good || !missed {
 							fail(&okCreate, "C02.entry-create", i, "an entry is stored in the table without a miss for the same key in the same critical section (or it is not a fresh entry): an existing entry with waiters is replaced")
